@@ -12,12 +12,15 @@ from .front_cy import Func
 def parse_region(path, qual, selector):
     tree = ast.parse(open(path).read())
     cname, _, mname = qual.partition(".")
+    mname, _, variant = mname.partition("#")
     node = None
     for c in tree.body:
         if isinstance(c, ast.ClassDef) and c.name == cname:
             for m in c.body:
                 if isinstance(m, ast.FunctionDef) and m.name == mname:
-                    node = m
+                    is_setter = any(isinstance(d, ast.Attribute) and d.attr == "setter" for d in m.decorator_list)
+                    if (variant == "setter") == is_setter:
+                        node = m
         if isinstance(c, ast.FunctionDef) and not mname and c.name == cname:
             node = c
     if node is None:
